@@ -11,7 +11,7 @@ import ast
 from .events import run_function
 from .fold import EnumRef, Regex, Unfoldable
 from .interp import AV, BASE_TOP, EXT_TOP, UNK, Out, const, dict_av, exc
-from .terms import T, TermRule, destruct, is_opaque, term_of, tv
+from .terms import PURE_STR_METHODS, T, TermRule, destruct, is_opaque, term_of, tv
 
 MUTATING_METHODS = {"append", "extend", "insert", "pop", "remove", "clear", "sort", "reverse", "update", "setdefault", "popitem", "discard", "add",
                     "put", "close", "seek", "write", "send", "sendall", "settimeout", "release_conn", "drain_conn"}
@@ -71,6 +71,14 @@ class GenRule(TermRule):
     def setattr(self, it, st, target, base, av):
         self.ev(st, "store", ast.unparse(target.value) if not (isinstance(target.value, ast.Name) and target.value.id == "self") else "self", target.attr, term_of(av))
 
+    def setitem(self, it, st, target, av):
+        bv, _ = it.eval(st, target.value)
+        base = term_of(bv[0][1]) if bv else "?"
+        if base.startswith("list(") or isinstance(target.slice, ast.Slice):
+            return
+        kv, _ = it.eval(st, target.slice)
+        self.ev(st, "setitem", base, term_of(kv[0][1]) if kv else "?", term_of(av))
+
     def on_yield(self, it, stmt, av, outs):
         res = []
         for o in outs:
@@ -103,6 +111,10 @@ class GenRule(TermRule):
                 return outs
         if isinstance(f, ast.Attribute) and recv is not None:
             leaf = f.attr
+            if recv.kind != "self" and leaf in PURE_STR_METHODS and not (recv.sym or "").startswith(("p:**",)):
+                return None  # known pure operation: TermRule builds the term
+            if recv.sym and recv.sym.startswith("list(") and leaf in ("append", "extend"):
+                return None  # local list builder
             if recv.kind == "self" or text.startswith("cls."):
                 nm = f"self.{leaf}"
                 s = st.copy()
